@@ -183,7 +183,7 @@ def java_cmd(main: str, jvm: list[str] | None = None) -> list[str]:
     return [
         "java",
         "-XX:+UseParallelGC",
-        *(jvm or []),
+        *(jvm or ["-Xmx6g"]),
         "-cp",
         f"{JAR}:{DEPS}",
         main,
